@@ -28,6 +28,8 @@ var (
 	jqLtR = []byte(`\u003c`)
 	jqQsR = []byte(`\u0027`)
 	jqZR  = []byte(`\u0000`)
+
+	jqHex = "0123456789abcdef"
 )
 
 // JSON quote of string value - '"' + JSON escape + '"'.
@@ -123,6 +125,11 @@ func jsonEscape(b []byte, buf *bytebuf.Accumulative) *bytebuf.Accumulative {
 		}
 		if c == jqZ {
 			buf.Write(b[o:i]).Write(jqZR)
+			o = i + 1
+		}
+		if c < 0x20 && c != jqNl && c != jqCr && c != jqT && c != jqFf && c != jqBs && c != jqZ {
+			// Remaining control characters must not appear raw in a JSON string.
+			buf.Write(b[o:i]).WriteString(`\u00`).WriteByte(jqHex[c>>4]).WriteByte(jqHex[c&15])
 			o = i + 1
 		}
 	}
